@@ -21,16 +21,17 @@ def obs_facts(ctx, res, args, label):
         raise vlib.Broken("recorder produced no records")
     with open(path, "a") as f:
         f.write(json.dumps(corrupt(recs[0]), ensure_ascii=False) + "\n")
-    out = ctx.tlc("Obs_Facts", "Obs.cfg", env_extra={"VERIF_OBS": path}, timeout=3000)
-    tags = out["tags"]
+    tags, dropped = ctx.tlc_obs("Obs_Facts", path, [r["id"] for r in recs] + [-1], label)
     if tags.get("WFERR"):
         raise vlib.Broken(f"generator produced ill-formed tables: {tags['WFERR'][:2]}")
     recsum = {r["id"]: r for r in tags.get("REC", [])}
-    if len(recsum) != len(recs) + 1:
+    if len(recsum) + len(dropped) != len(recs) + 1:
         raise vlib.Broken(f"TLC checked {len(recsum)} of {len(recs)+1} records")
     bads = {b["id"]: b for b in tags.get("BAD", [])}
-    if -1 not in bads and recsum[-1]["matches"] > 0:
+    if -1 not in bads and -1 in recsum and recsum[-1]["matches"] > 0:
         raise vlib.Broken("binding self-test failed: a corrupted fact was accepted by Obs_Facts")
+    if -1 not in recsum:
+        raise vlib.Broken("binding self-test: TLC gave no verdict on the corrupted record")
     byid = {r["id"]: r for r in recs}
     for i, b in bads.items():
         if i == -1:
